@@ -4,6 +4,7 @@ import (
 	"crypto/sha256"
 	"encoding/hex"
 	"fmt"
+	tmtypes "github.com/tendermint/tendermint/types"
 	"math/big"
 	"sort"
 	"strconv"
@@ -31,12 +32,14 @@ import (
 // clients, with one origin ERC-20 per chain and a wrapped ERC-20 for every
 // other chain's origin token (registered with the endpoint contract).
 type World struct {
-	Names  []string          // abstract names "A","B","C"
-	Chains map[string]*Chain // by abstract name
-	ID     map[string]string // abstract name -> chain id
-	Abs    map[string]string // chain id -> abstract name
-	Origin map[string]common.Address
-	Wrap   map[string]map[string]common.Address // Wrap[c][d] = token on c wrapping d's origin token
+	ForgeNext  bool // the next UpdateClient submits a forged header (signer class "forger")
+	forgeCount int
+	Names      []string          // abstract names "A","B","C"
+	Chains     map[string]*Chain // by abstract name
+	ID         map[string]string // abstract name -> chain id
+	Abs        map[string]string // chain id -> abstract name
+	Origin     map[string]common.Address
+	Wrap       map[string]map[string]common.Address // Wrap[c][d] = token on c wrapping d's origin token
 	// abstract heights: AbsH[c][k] = real header height proving the state after the k-th Commit of c
 	AbsH map[string][]int64
 	// ground truth recorded at every commit: provable commitments/acks at AbsH[c][k]
@@ -207,6 +210,36 @@ func (w *World) Retoggle(cn, dn string) (string, string) {
 	return "ok", ""
 }
 
+// NewClient: governance on chain cn creates a TSS client for a further chain whose name is a proper prefix of the
+// name of cn's counterparty dn (mode "prefix": the name without its last 1, 2, ... characters) or extends it (mode
+// "ext").  Each call uses the next free name of its kind.
+func (w *World) NewClient(cn, dn, mode string) (string, string) {
+	c, d := w.Chains[cn], w.Chains[dn]
+	name := ""
+	for i := 1; i < len(d.ChainID)-3 && name == ""; i++ {
+		cand := d.ChainID[:len(d.ChainID)-i]
+		if mode == "ext" {
+			cand = d.ChainID + strings.Repeat("0", i)
+		}
+		taken := cand == c.ChainID
+		for _, o := range w.Chains {
+			if o.ChainID == cand {
+				taken = true
+			}
+		}
+		if _, ok := c.App.XIBCKeeper.ClientKeeper.GetClientState(c.Ctx(), cand); !ok && !taken {
+			name = cand
+		}
+	}
+	if name == "" {
+		return "err", "no free name"
+	}
+	tss := &tsstypes.ClientState{TssAddress: c.Accts[AcctOutside].Acc.String(), Pubkey: []byte{1, 2, 3}, PartPubkeys: [][]byte{{4}, {5}}, Threshold: 2}
+	p, err := clienttypes.NewCreateClientProposal("t", "d", name, tss, &tsstypes.ConsensusState{})
+	must(err)
+	return c.ExecProposal(p)
+}
+
 func addrp(a common.Address) *common.Address { return &a }
 
 func mustPack(a interface {
@@ -322,6 +355,25 @@ func (w *World) UpdateClientNamed(cn, name, dn string, k int, signer int) TxResu
 	tv, err := d.Vals.ToProto()
 	must(err)
 	cp.TrustedValidators = tv
+	if w.ForgeNext {
+		// a header for the same height and time that the counterparty's validators never signed: another application
+		// hash, signed by the validator of a private chain (submitted by the registered relayer)
+		w.ForgeNext = false
+		pv := seededPV("forger/" + dn)
+		pub, _ := pv.GetPubKey()
+		fvals := tmtypes.NewValidatorSet([]*tmtypes.Validator{tmtypes.NewValidator(pub, 1)})
+		fh := SignedHeader(d.ChainID, hd.Header.Height, hd.Header.Time, []byte("an application hash of a private chain"), fvals, fvals, []tmtypes.PrivValidator{pv})
+		cp = *fh
+		cp.TrustedHeight = trusted
+		w.forgeCount++
+		if w.forgeCount%2 == 0 {
+			cp.TrustedValidators = tv // ... claiming the real trusted validators
+		} else {
+			ftv, err := fvals.ToProto()
+			must(err)
+			cp.TrustedValidators = ftv // ... or its own
+		}
+	}
 	msg, err := clienttypes.NewMsgUpdateClient(name, &cp, c.Accts[signer].Acc)
 	must(err)
 	return c.DeliverMsgs(c.Accts[signer], msg)
